@@ -53,33 +53,48 @@ Print Assumptions C18_outer_exact.
    whose code can still run (the latest whole-module instrumentation of a path and every single-function instrumentation of it
    since): all its node ids are in the tables and the line table of its module maps each of its lines to its own statement. *)
 Theorem C18_history : forall gc ops, hist_fresh gc ops st0 ->
-  forall q b, In b (valid (BookHist.run book_remove_first gc ops st0) q) ->
-    (forall k, In k (b_ids b) -> gn (BookHist.run book_remove_first gc ops st0) k = true) /\
-    (forall l, has_line l (b_lines b) = true -> gl (BookHist.run book_remove_first gc ops st0) (b_mid b) l = lookup l (b_lines b) None).
+  forall q b, In b (valid (BookHist.run book_remove_first book_remove_old_mid gc ops st0) q) ->
+    (forall k, In k (b_ids b) -> gn (BookHist.run book_remove_first book_remove_old_mid gc ops st0) k = true) /\
+    (forall l, has_line l (b_lines b) = true -> gl (BookHist.run book_remove_first book_remove_old_mid gc ops st0) (b_mid b) l = lookup l (b_lines b) None).
 Proof. intros gc ops HF q b Hb. exact (history_entries_valid gc ops st0 inv0 HF q b Hb). Qed.
 Print Assumptions C18_history.
+(* `hist_fresh` assumes of every new bookkeeper that its module id is not the key of a line table still in use.  That was an
+   assumption the code did not meet (the key was the address of the tree handed to the rewriter, which dies after compilation:
+   a later tree at the same address merged its lines into the old table - finding C18-line-tables-merge, fixed).  The key is now
+   the id of the registered copy of the tree, one of the bookkeeper's OWN nodes (gen/BookOrder.v: book_mid_is_registered_node,
+   checked per instrumentation by K-hist), and the assumption follows from what remains: the new nodes are live objects that are
+   not in the tables yet. *)
+Theorem C18_history_own_keys : forall gc ops, book_mid_is_registered_node = true -> hist_fresh_ids gc ops st0 ->
+  forall q b, In b (valid (BookHist.run book_remove_first book_remove_old_mid gc ops st0) q) ->
+    (forall k, In k (b_ids b) -> gn (BookHist.run book_remove_first book_remove_old_mid gc ops st0) k = true) /\
+    (forall l, has_line l (b_lines b) = true -> gl (BookHist.run book_remove_first book_remove_old_mid gc ops st0) (b_mid b) l = lookup l (b_lines b) None).
+Proof. intros gc ops _ HF q b Hb. exact (history_entries_valid_ids gc ops HF q b Hb). Qed.
+Print Assumptions C18_history_own_keys.
 
 (* the other order, kept as a checked witness: a file instrumented twice loses the lines both versions share *)
 Theorem C18_remove_after_add_refuted :
   let b1 := {| b_mid := 1; b_ids := [10; 11]; b_lines := [(1, 11)] |}%N in
   let b2 := {| b_mid := 2; b_ids := [20; 21]; b_lines := [(1, 21)] |}%N in
-  let s := BookHist.run false true [ {| o_path := 0%N; o_kind := KModule; o_bk := b1 |}; {| o_path := 0%N; o_kind := KModule; o_bk := b2 |} ] st0 in
+  let s := BookHist.run false false true [ {| o_path := 0%N; o_kind := KModule; o_bk := b1 |}; {| o_path := 0%N; o_kind := KModule; o_bk := b2 |} ] st0 in
   valid s 0%N = [b2] /\ gl s 2%N 1%N = None.
 Proof. exact remove_after_add_refuted. Qed.
 Print Assumptions C18_remove_after_add_refuted.
 
 Example C18_history_nonvacuous :
-  let b1 := {| b_mid := 1; b_ids := [10; 11]; b_lines := [(1, 11)] |}%N in
-  let b2 := {| b_mid := 2; b_ids := [20; 21]; b_lines := [(1, 21)] |}%N in
+  let b1 := {| b_mid := 10; b_ids := [10; 11]; b_lines := [(1, 11)] |}%N in
+  let b2 := {| b_mid := 20; b_ids := [20; 21]; b_lines := [(1, 21)] |}%N in
   let ops := [ {| o_path := 0%N; o_kind := KModule; o_bk := b1 |}; {| o_path := 0%N; o_kind := KModule; o_bk := b2 |} ] in
-  hist_fresh true ops st0 /\ valid (BookHist.run book_remove_first true ops st0) 0%N = [b2].
+  hist_fresh_ids true ops st0 /\ hist_fresh true ops st0 /\ valid (BookHist.run book_remove_first book_remove_old_mid true ops st0) 0%N = [b2].
 Proof.
-  cbn zeta. split; [|reflexivity].
-  cbn [hist_fresh]. split; [|split; [|exact I]].
-  - split; [intros k _; reflexivity|intros q b []].
-  - split.
-    + intros k Hk. cbn in Hk. destruct Hk as [<-|[<-|[]]]; reflexivity.
-    + intros q b Hb. cbn in Hb. destruct (N.eqb q 0) in Hb; [|destruct Hb]. destruct Hb as [<-|[]]. cbn. discriminate.
+  cbn zeta.
+  assert (H : hist_fresh_ids true
+    [ {| o_path := 0%N; o_kind := KModule; o_bk := {| b_mid := 10; b_ids := [10; 11]; b_lines := [(1, 11)] |}%N |};
+      {| o_path := 0%N; o_kind := KModule; o_bk := {| b_mid := 20; b_ids := [20; 21]; b_lines := [(1, 21)] |}%N |} ] st0).
+  { cbn [hist_fresh_ids]. split; [|split; [|exact I]].
+    - split; [intros k _; reflexivity|now left].
+    - split; [|now left]. intros k Hk. cbn in Hk. destruct Hk as [<-|[<-|[]]]; reflexivity. }
+  split; [exact H|]. split; [|reflexivity].
+  apply hist_fresh_of_ids; [exact inv0|intros q b []|exact H].
 Qed.
 
 (* non-vacuity: `@deco def g(): a = 1; return a` then `try: x = 1 except E: y = 2`
